@@ -719,6 +719,27 @@ impl Sess {
                 m.trigger_key_interrupt();
                 ok()
             }
+            ["spec.contkey"] => {
+                // the CONTINUE key only leaves the Stopped state: pressed on a machine that is not stopped it changes
+                // nothing - in particular not the number of clock edges the instructions in flight take
+                if m.state() == State::Stopped {
+                    "noop".to_string()
+                } else {
+                    let mut a = m.clone();
+                    let mut b = m.clone();
+                    a.trigger_key_continue();
+                    let mut res = "noop".to_string();
+                    for k in 0..40 {
+                        if a != b {
+                            res = format!("differs after {} edges", k);
+                            break;
+                        }
+                        a.raw_mut().trigger_clock_edge();
+                        b.raw_mut().trigger_clock_edge();
+                    }
+                    res
+                }
+            }
             ["spec.cpuread", a] => match a.parse::<u8>() {
                 // "reads never change any state", for a read the CPU performs: on a copy of the machine as the history
                 // left it (bus, board, interrupt mask / status / flip-flop), an instruction `LD R0, (a)` is placed at PC
